@@ -181,7 +181,7 @@ def permute_norm(norm, perm, Y, X):
     return out
 
 
-def check_equivariance(scn, rng, ref_cache):
+def check_equivariance(scn, rng, ref_cache, perm=None):
     """O5: op(pi(cube)) == pi(op(cube)); zonal.mean invariant."""
     from . import runner
 
@@ -191,8 +191,11 @@ def check_equivariance(scn, rng, ref_cache):
     T, Y, X = scn["cube"]["shape"]
     if Y * X < 2:
         return []
-    perm = list(range(Y * X))
-    rng.shuffle(perm)
+    if perm is None:
+        perm = list(range(Y * X))
+        rng.shuffle(perm)
+    perm = [int(p) for p in perm]
+    check_equivariance.last_perm = perm
     got, exc, _ = runner.eager_reference(scn, perm=np.array(perm))
     if exc is not None:
         return [("pixel-equivariance", f"permuted cube raised {type(exc).__name__}: {str(exc)[:200]} while the original did not")]
@@ -358,9 +361,14 @@ def job_op(job):
     if job.get("race_first"):
         from . import realrace
 
-        cands = sorted(k for k, o in realrace.KERNEL_OP.items() if o == op)
+        cands = sorted(k for k, o in realrace.KERNEL_OP.items() if o == op and k != "ws2doptvplc_tyx")
+        picks = []
         if cands:
-            kernel = random.Random(f"{seed}/D-pick/{op}").choice(cands)
+            # njit first-use kernels always (their race window is otherwise microscopic), plus one
+            # seed-chosen lazily compiled kernel -- but only one race per process is a *first* use of
+            # numba, so the njit one goes first
+            picks = [k for k in cands if k in realrace.NJIT_FIRST_USE][:1] or [random.Random(f"{seed}/D-pick/{op}").choice(cands)]
+        for kernel in picks:
             t_d = time.monotonic()
             try:
                 nthr = random.Random(f"{seed}/D/{kernel}").choice([2, 3, 4, 8])
@@ -463,7 +471,7 @@ def job_op(job):
                     scn, cfg, rr.tape, execute, lambda r: any(v[0] == vclass for v in r.violations), budget=budget
                 )
 
-            handle_violations(agg, known, "A", key, scn, cfg, rr, minimiser)
+            handle_violations(agg, known, "A", key, scn, cfg, rr, minimiser, extra={"perm": getattr(check_equivariance, "last_perm", None)})
     agg.bump("wall", "A", time.monotonic() - t_start)
     # ---------------- R ----------------
     t1 = time.monotonic()
@@ -592,7 +600,7 @@ def replay_file(path):
         cache = {}
         ref, ref_exc, _ = runner.eager_reference(payload["scenario"])
         cache["ref"] = (ref, ref_exc)
-        rr.violations.extend(check_equivariance(payload["scenario"], random.Random(payload["key"] + "/eq"), cache))
+        rr.violations.extend(check_equivariance(payload["scenario"], random.Random(payload["key"] + "/eq"), cache, perm=payload.get("perm")))
     if rr.harness:
         print(f"HARNESS-ERROR during replay: {rr.harness}")
         return 2
